@@ -296,3 +296,49 @@ def check_window_dispatch(cb, rep, rule):
                    % (role, what, "without dispatching on config.sliding_window_type" if arm is None else "on the %s arm" % arm))
     rep.floor(rule + ".sites", n, 4)
     return n
+
+
+def check_stats_partition(cb, rep, rule):
+    """the time-based statistics function partitions the records: where one counter counts the records with a flag
+    set, the counter counting the records with that flag clear is not restricted any further (a success that is also
+    slow is still a success: the half-open closing decision and the failure rate are computed from these counts)"""
+    facts, tr = cb.facts, cb.tr
+    n = 0
+    for F in facts.crates[CRATE].bodies:
+        if F.kind != "fn" or not cb._is_circuit_method(F) or not F.local_ty(0)["s"].startswith("(usize"):
+            continue
+        g = graph(F)
+        if not any(c.name == "next" for c in g.calls()):
+            continue
+        rep.saw(F)
+        guards = {}
+        for i, blk in enumerate(F.blocks):
+            for j, s_ in enumerate(blk["stmts"]):
+                if s_["k"] != "assign" or s_["lhs"]["p"]:
+                    continue
+                v = peel(tr.stmt_value(F, i, j))
+                if v[0] == "field" and peel(v[1])[0] == "binop":
+                    v = peel(v[1])
+                if not (v[0] == "binop" and v[1].startswith("Add") and peel(v[3])[0] == "const" and peel(v[3])[3] == "1"):
+                    continue
+                gs = set()
+                for e in dominating_edges(tr, F, i):
+                    if e["kind"] == "bool" and e["node"][0] == "field" and isinstance(e["node"][2], str) and "via" not in e:
+                        gs.add((e["node"][2], e["label"]))
+                guards.setdefault(s_["lhs"]["l"], []).append((gs, g.where(i, j)))
+        for l, lst in guards.items():
+            for (gs, wh) in lst:
+                for (f, lab) in gs:
+                    if lab != "false":
+                        continue
+                    # this counter counts records with flag f clear: does a sibling count the records with it set?
+                    if any((f, "true") in gs2 and len(gs2) == 1 for l2, lst2 in guards.items() if l2 != l for (gs2, _w) in lst2):
+                        n += 1
+                        extra = gs - {(f, "false")}
+                        rep.ob(rule, skey(F, "complement-of.%s" % f), not extra, wh,
+                               "the counter of records without `%s` counts all of them" % f if not extra else
+                               "the counter of records without `%s` is further restricted by %s: records that are neither counted as "
+                               "`%s` nor here vanish from the statistics (e.g. slow successes no longer close a half-open breaker)"
+                               % (f, sorted(extra), f))
+    rep.floor(rule + ".complements", n, 1)
+    return n
